@@ -224,6 +224,19 @@ func (x *Exec) step(fr *frameRun, st *State, instr ssa.Instruction) error {
 		case *types.Slice:
 			if x.ghost == 0 {
 				x.oblige(st, "safe", fmt.Sprintf("safe.index@%s", x.posStr(in.Pos())), in.Pos(), tb.Cmp("bvult", idx, s.C[2]))
+				// trigger: quantified hypotheses (forall i ... s[i] ...) are instantiated at
+				// every index the code itself reads or writes
+				if len(x.pend) > 0 && !idx.IsConst() && len(x.hints) < 64 {
+					dup := false
+					for _, h := range x.hints {
+						if h == idx {
+							dup = true
+						}
+					}
+					if !dup {
+						x.hints = append(x.hints, idx)
+					}
+				}
 			}
 			st.env[in] = &Val{T: in.Type(), C: []*Term{s.C[0]}, A: &Addr{prefix: elemPrefix(t.Elem()), keys: []*Term{s.C[0], tb.Add(s.C[1], idx)}}}
 		case *types.Pointer:
